@@ -126,7 +126,7 @@ reg("C11", level="model_checking", overlay="world",
     technique="stateless deviation-bounded exploration of loss/time histories around the real NTS client, listener, key-exchange handler and key provider in one bubble; wire-level oracle",
     level_text="Client pool accounting, request construction at every pool level, server cookie replenishment and key rotation all run as shipped (real TLS key exchange, real AEAD) inside a bubble; the explorer enumerates loss runs and day-scale time steps inside the bound and judges every request and reply on the wire.",
     budget={"quick": 150, "thorough": 1200}, workers={"quick": 16, "thorough": 16},
-    assumptions=["SCION transport shares the request/response builders and is not run separately here", "cookies are the 124-byte cookies the project's servers issue"])
+    assumptions=["over SCION the NTS-protected exchange runs through the real SCIONClient and runSCIONServer; the key exchange itself uses the TLS transport (QUIC is outside the explored system)", "cookies are the 124-byte cookies the project's servers issue"])
 
 reg("C10", level="exploration", overlay="world",
     technique="exhaustive single-bit / field / truncation / key mutation of every encoded NTS request, response and cookie, judged by the real listener and client functions",
